@@ -268,7 +268,7 @@ def execute_anim(case, ctx):
     frames_bars = []
     try:
         frames_dir = os.path.join(tmp, "frames")
-        if cfg["stale"]:
+        if cfg["stale"] and cfg["plot"] == "stub":  # stale frames come from an earlier run with the same plotter (same image size)
             # frames left behind by an earlier run that kept its frames
             os.makedirs(frames_dir, exist_ok=True)
             for k in range(1, cfg["stale"] + 1):
